@@ -258,8 +258,8 @@ def run_col(case):
 @st.composite
 def cases(draw):
     kind = draw(st.sampled_from(KINDS))
-    n = draw(st.integers(8, 96))
-    nb = draw(st.sampled_from([1, 1, 2, 3, 4]))
+    n = gen.grid_size(draw, 8, 96, one_in=40)
+    nb = draw(st.sampled_from([1, 1, 2, 3, 4])) if n < 200 else draw(st.sampled_from([1, 2]))
     it = draw(st.sampled_from([1, 2, 3, 4]))
     c = dict(kind=kind, n=n, nb=nb, it=it, dseed=draw(gen.seeds()),
              dkind=draw(st.sampled_from(["noise", "pos", "altsign", "impulse"])),
